@@ -4,6 +4,7 @@ import (
 	"encoding/hex"
 	"fmt"
 	"math/bits"
+	"time"
 
 	"github.com/cosmos/cosmos-proto/internal/verifh/vschema"
 	"github.com/cosmos/cosmos-proto/internal/verifh/vval"
@@ -121,6 +122,10 @@ func runRuntime(cfg *Cfg) {
 			}
 		case 4: // adversarial lengths
 			lens := []uint64{1 << 31, 1<<63 - 1, 1 << 63, ^uint64(0), 1<<63 - 2, 1 << 62}
+			if r.Bool() {
+				// small negative lengths (as int64): an index that moves back into or before the record's header
+				lens = []uint64{uint64(-int64(1 + r.Intn(24)))}
+			}
 			bs = protowire.AppendTag(nil, protowire.Number(1+r.Intn(100)), protowire.BytesType)
 			if r.Bool() {
 				bs = append(protowire.AppendTag(nil, 3, protowire.StartGroupType), bs...)
@@ -138,9 +143,11 @@ func runRuntime(cfg *Cfg) {
 		}
 		var n int
 		var err error
-		p, msg := guard(func() { n, err = runtime.Skip(bs) })
-		out.Case("skip"+hex.EncodeToString(bs), len(bs) > 0)
 		hx := "skip x" + hex.EncodeToString(bs)
+		out.Watch("C15", "skip-hang", "runtime.Skip", hx, 10*time.Second)
+		p, msg := guard(func() { n, err = runtime.Skip(bs) })
+		out.Unwatch()
+		out.Case("skip"+hex.EncodeToString(bs), len(bs) > 0)
 		if p {
 			out.Violate("C15", "skip-panic", "Skip panicked: "+msg, hx)
 			out.Line("C15", hx, "panic")
